@@ -11,6 +11,7 @@ import (
 	"strings"
 
 	"github.com/yuin/goldmark"
+	"github.com/yuin/goldmark/ast"
 	"github.com/yuin/goldmark/extension"
 	"github.com/yuin/goldmark/parser"
 	"github.com/yuin/goldmark/renderer/html"
@@ -24,6 +25,10 @@ type Cfg struct {
 	XHTML      bool
 	HardWraps  bool
 	TableAlign int // 0 default 1 attribute 2 style 3 none
+	// footnote id prefix: "" none; otherwise the text of the prefix; FnPrefixFunc passes it through
+	// WithFootnoteIDPrefixFunction (a slice with spare capacity, never written by the harness)
+	FnPrefix     string
+	FnPrefixFunc bool
 }
 
 func (c Cfg) Name() string {
@@ -39,7 +44,36 @@ func (c Cfg) Name() string {
 	if c.TableAlign != 0 {
 		s += fmt.Sprintf("+align%d", c.TableAlign)
 	}
+	if c.FnPrefix != "" {
+		s += "+fnprefix=" + c.FnPrefix
+		if c.FnPrefixFunc {
+			s += "(func)"
+		}
+	}
 	return s
+}
+
+// the Footnote extension of a configuration
+func (c Cfg) footnoteExt() goldmark.Extender {
+	if c.FnPrefix == "" {
+		return extension.Footnote
+	}
+	if c.FnPrefixFunc {
+		pre := make([]byte, len(c.FnPrefix), 64)
+		copy(pre, c.FnPrefix)
+		return extension.NewFootnote(extension.WithFootnoteIDPrefixFunction(func(ast.Node) []byte { return pre }))
+	}
+	return extension.NewFootnote(extension.WithFootnoteIDPrefix(c.FnPrefix))
+}
+
+// removes the configured footnote id prefix from id and href values, so that the id oracles see
+// the unprefixed names
+func (c Cfg) stripFnPrefix(out []byte) []byte {
+	if c.FnPrefix == "" {
+		return out
+	}
+	out = bytes.ReplaceAll(out, []byte(`id="`+c.FnPrefix), []byte(`id="`))
+	return bytes.ReplaceAll(out, []byte(`href="#`+c.FnPrefix), []byte(`href="#`))
 }
 
 func tableExt(align int) goldmark.Extender {
@@ -77,7 +111,7 @@ func (c Cfg) Extenders() []goldmark.Extender {
 	case "deflist":
 		return []goldmark.Extender{extension.DefinitionList}
 	case "footnote":
-		return []goldmark.Extender{extension.Footnote}
+		return []goldmark.Extender{c.footnoteExt()}
 	case "typo":
 		return []goldmark.Extender{extension.Typographer}
 	case "cjk":
@@ -87,12 +121,12 @@ func (c Cfg) Extenders() []goldmark.Extender {
 	case "cjkesc":
 		return []goldmark.Extender{extension.NewCJK(extension.WithEscapedSpace())}
 	case "all":
-		return append(gfm, extension.DefinitionList, extension.Footnote, extension.Typographer, extension.CJK)
+		return append(gfm, extension.DefinitionList, c.footnoteExt(), extension.Typographer, extension.CJK)
 	case "gfm+footnote":
-		return append(gfm, extension.Footnote)
+		return append(gfm, c.footnoteExt())
 	}
 	if c.Ext == "footnote+footnote" {
-		return []goldmark.Extender{extension.Footnote, extension.Footnote}
+		return []goldmark.Extender{c.footnoteExt(), c.footnoteExt()}
 	}
 	// "gfm+<ext>": GFM plus one further extension (possibly one of its own members a second time)
 	if strings.HasPrefix(c.Ext, "gfm+") {
@@ -303,6 +337,64 @@ func mutate(r *RNG, d []byte, other []byte) []byte {
 }
 
 // docStreams feeds f with (stream name, document) for the standard streams.
+var longFillers = []string{"p\n\n", "- a\n", "> q\n", "# h\n\n", "```\nc\n```\n\n", "a\nb\n\n", "- a\n\n  b\n\n", "1. x\n   - y\n", "|a|\n|-|\n|b|\n\n", "x[^1]\n\n"}
+var longTails = []string{"- a\n\n- b\n", "1. a\n\n   b\n2. c\n", "> a\n>\n> b\n", "- a\n  - b\n\n  - c\n- d\n", "[x]: /u\n\n[x] `c` *e*\n", "|a|b|\n|-|-|\n|c|d|\n", "a[^1]\n\n[^1]: n\n", "t\n: d\n\n: e\n", "# h\n\n# h\n", "- [ ] t\n\n- [x] u\n"}
+
+// longDocs calls f(A, B) with A = a filler repeated N times (closed at its end) and B a tail
+func longDocs(quick bool, f func(a, b []byte)) {
+	ns := []int{63, 64, 65, 127, 128, 129, 255, 256, 257}
+	if !quick {
+		ns = nil
+		for _, c := range []int{32, 64, 128, 256, 512, 1024, 2048, 4096} {
+			for d := -3; d <= 3; d++ {
+				ns = append(ns, c+d)
+			}
+		}
+	}
+	k := 0
+	for _, fl := range longFillers {
+		for _, n := range ns {
+			a := []byte(strings.Repeat(fl, n))
+			if !bytes.HasSuffix(a, []byte("\n\n")) {
+				a = append(a, '\n')
+			}
+			for j := 0; j < 2; j++ {
+				f(a, []byte(longTails[k%len(longTails)]))
+				k++
+			}
+		}
+	}
+}
+
+func typoContexts(f func(string)) {
+	trig := []string{"\"", "'", "--", "---", "...", "<<", ">>", "'s", "'t", "'re", "'ve", "'ll", "'d", "'m", "1/2", "(c)", "\"\"", "''", "\"'", "'\""}
+	before := []string{"", "a", "a.", "a!", "。", "…", " ", "é", "あ", "\"a", "(", "*", "1", "\\"}
+	after := []string{"", "a", ".", "。", "、", "…", "—", " ", " a", "é", "あ", "\n", ")", "*", "2", "\u00a0", "\xe3", "\xe2\x80"}
+	k := 0
+	for _, t := range trig {
+		for _, b := range before {
+			for _, a := range after {
+				core := b + t + a
+				k++
+				switch k % 6 {
+				case 0:
+					f(core)
+				case 1:
+					f("\"x " + core)
+				case 2:
+					f("# " + core)
+				case 3:
+					f("- " + core + "\n- 'y " + core)
+				case 4:
+					f("|" + core + "|\n|-|\n|\"z " + core + "|")
+				default:
+					f("\"q\" " + core + "\nnext " + core)
+				}
+			}
+		}
+	}
+}
+
 type docOpts struct {
 	blockLines      int // exhaustive line-structured documents up to this many lines
 	randLines       int // number of random line-structured documents
@@ -355,6 +447,18 @@ func docStreams(c *Ctx, o docOpts, f func(stream string, doc []byte)) {
 			f("context-x-content-pairs", matrixPair(c.R))
 		}
 	}
+	// long documents: a filler block repeated N times for N around powers of two (buffers that
+	// are compacted, grown or flushed at a fixed size), then a tail whose rendering depends on
+	// per-line state
+	if o.random > 0 {
+		longDocs(c.Quick(), func(a, b []byte) { f("long-documents", append(append([]byte{}, a...), b...)) })
+	}
+	// quotes, dashes, dots and other typographic triggers in every neighbourhood: before and after
+	// a letter, ASCII and multi-byte punctuation, a blank, a multi-byte letter, nothing; in the
+	// middle and at the very end of a block, in a paragraph, heading, list item and table cell
+	if o.random > 0 {
+		typoContexts(func(d string) { f("typographic-contexts", []byte(d)) })
+	}
 	// documents assembled from the extension constructs
 	for i := 0; i < o.random/2; i++ {
 		f("extension-constructs", extDoc(c.R))
@@ -382,6 +486,14 @@ func docStreams(c *Ctx, o docOpts, f func(stream string, doc []byte)) {
 				d += "\n"
 			}
 			f("attribute-soup", []byte(d))
+		}
+		// every byte inside, before and after an attribute name, on names that pass the filters
+		// (data-*) and names that do not; and inside quoted and bare values
+		for b := 0; b < 256; b++ {
+			ch := string([]byte{byte(b)})
+			for _, t := range []string{"# t {data-x" + ch + "onclick=v}", "# t {" + ch + "data-x=v}", "# t {data-x=v" + ch + "}", "# t {#i" + ch + "j}", "# t {.c" + ch + "d}", "t {title=\"a" + ch + "b\"}\n===", "# t {lang" + ch + "=en}", "# t {data-" + ch + "}"} {
+				f("attribute-bytes", []byte(t))
+			}
 		}
 	}
 	// documents printed from random SpecDoc trees (every construct of the C02 fragment, nested
